@@ -8,6 +8,7 @@ mod idl;
 mod pb;
 mod thrift;
 mod thrift2;
+mod thrift3;
 mod thrift_rt;
 mod val;
 
@@ -23,6 +24,7 @@ type GenFn = fn(&str, &str, u64, &mut dyn Write) -> bool;
 const MODULES: &[(ExecFn, GenFn)] = &[
     (thrift_rt::exec, thrift_rt::gen),
     (thrift2::exec, thrift2::gen),
+    (thrift3::exec, thrift3::gen),
     (pb::exec, pb::gen),
     (idl::exec, idl::gen),
 ];
